@@ -28,21 +28,44 @@ def link_records(trace_iter, results):
 
 
 def boundary_records(trace_iter, results):
-    """Events for spec/trace/Boundary.tla: probe sequences per (probe id, replica)."""
+    """Events for spec/trace/Boundary.tla: probe sequences per (probe id, replica).
+    The Start that an IterationLeader uses internally as the receiver of the delta updates is not
+    an operator-chain boundary (its link carries bare items, by design): its start_out events are
+    dropped; leader blocks are recognised by their `leader` events."""
+    buf = []
+    leaders = set()
+    job = None
+
+    def flush():
+        for r in buf:
+            if r.get("_b") in leaders:
+                continue
+            r.pop("_b", None)
+            yield r
+
     for e in trace_iter:
         ev = e.get("ev")
         if ev == "job":
-            yield {"ev": "job", "id": e["id"]}
+            job = e["id"]
+            buf = [{"ev": "job", "id": job}]
+            leaders = set()
+        elif ev == "leader":
+            leaders.add(e["at"].split(".")[0])
         elif ev == "probe":
             el = e["el"]
-            yield {"ev": "probe", "p": e["id"] + "@" + e["at"], "k": el["k"],
-                   "ts": small(el.get("ts", 0))}
-        elif ev == "done":
+            buf.append({"ev": "probe", "p": e["id"] + "@" + e["at"], "k": el["k"],
+                        "ts": small(el.get("ts", 0))})
+        elif ev == "start_out":
+            # the boundary between a block's Start and its first operator (hook in Start::next)
+            el = e["el"]
+            buf.append({"ev": "probe", "p": "START@" + e["at"] + "#" + str(e["th"]), "k": el["k"],
+                        "ts": small(el.get("ts", 0)), "_b": e["at"].split(".")[0]})
+        elif ev in ("done", "hang"):
             r = results.get(e["id"], {})
-            ok = all(h.get("ok") for h in r.get("hosts", [])) and not r.get("hang")
+            ok = ev == "done" and all(h.get("ok") for h in r.get("hosts", [])) and not r.get("hang")
+            yield from flush()
+            buf = []
             yield {"ev": "done", "id": e["id"], "ok": bool(ok)}
-        elif ev == "hang":
-            yield {"ev": "done", "id": e["id"], "ok": False}
 
 
 def routing_records(trace_iter, results, rules_by_job):
